@@ -2,6 +2,7 @@
 from __future__ import annotations
 
 import json
+import os
 import re
 import shutil
 import subprocess
@@ -21,6 +22,7 @@ LANG_FLAGS = {"MPy": FLAGS[0:4], "MTs": FLAGS[4:7] + FLAGS[8:9], "MRs": FLAGS[7:
 COQ_LANG = {"py": "MPy", "ts": "MTs", "js": "MTs", "rs": "MRs"}
 HEADER = ("From Coq Require Import ZArith.\n"
           "From TL Require Import Lib.Base Model.MagicNum Model.Magic Model.MagicSpec Model.MagicRun Actual.MagicActual.\n")
+WORKERS = max(1, min(NPROC, int(os.environ.get("VERIF_WORKERS", "6"))))      # the box is shared: few workers for long runs
 MSG_RE = re.compile(r"^Magic number (.*) should be a named constant$", re.S)
 TS_MARKERS = [".test.", ".spec.", "test_", "_test.", "/tests/", "/test/"]
 
@@ -464,7 +466,7 @@ def eval_shards(workdir: Path, shards, th: Path):
         p = workdir / f"cases_{i}.v"
         p.write_text(HEADER + "\n" + body + "\n")
         jobs.append((p, th))
-    with ThreadPoolExecutor(max_workers=NPROC) as ex:
+    with ThreadPoolExecutor(max_workers=WORKERS) as ex:
         outs = list(ex.map(_run_shard, jobs))
     results = []
     for (rc, so, se), (p, _) in zip(outs, jobs):
@@ -608,7 +610,11 @@ def run(tier: str, seed: int, replay: str | None = None) -> int:
         "underscores, suffixes) and floats with at most 6 significant digits and |exponent| <= 9, for which decimal equality and "
         "IEEE-double equality (Python's `value in allowed_numbers`) coincide; CPython's literal evaluation for Python files is an oracle",
         "py_int0 / py_float (Model/MagicNum.v) model int(text, 0) / float(text) on number-token text only (no sign, whitespace, inf/nan)",
-        "generated programs contain no comments or ignore directives; column numbers and suggestions are not compared",
+        "12 % of the generated statements carry a trailing same-line comment from a pool of 8 forms (directives naming this rule, another rule, "
+        "both, the bare form, a plain note); what the shared IgnoreDirectiveParser reads in them is an oracle here (property C04's subject); "
+        "next-line / block / file-level / function-level directives are not generated; column numbers and suggestions are not compared",
+        "file names: Python files are <dot-free stem>.py (MagicSpec.name_good); PurePath.match is modelled by path_match and used by "
+        "model and specification alike (only the switch semantics of `ignore` is proved)",
     ]
     chk.build(["theories/Props/C02.v"], ["MagicGen"], known_v=["theories/Props/C02Known.v"])
     scale = chk.budget_scale()
@@ -621,7 +627,7 @@ def run(tier: str, seed: int, replay: str | None = None) -> int:
         cases = corpus_cases() + gen_cases(seed, n_files)
     import time
     t0 = time.time()
-    impls = pool_map(run_impl, cases, procs=8)
+    impls = pool_map(run_impl, cases, procs=WORKERS)
     t1 = time.time()
     with scratch_dir("tv-c02-coq-") as wd:
         try:
